@@ -963,7 +963,18 @@ fn gen_spec(rng: &mut Prng, need_relin: bool) -> Option<ParamSpec> {
         let bits = if i + 1 == primes { rng.range(55, 60) } else { rng.range(40, 54) };
         q.push(gen::find_prime(rng, factor, bits, &q)?);
     }
-    let tbits = rng.range(13, 20);
+    let mut tbits = rng.range(13, 20);
+    // odd but legitimate shape, one spec in eight: a small data prime in the middle of the chain and
+    // a plain modulus larger than it (no fast plain lift; residues of t-multiples need reducing);
+    // not where a product is computed (a square needs the noise room of an ordinary shape)
+    if scheme != CKKS && primes >= 3 && !need_relin && rng.chance(1, 8) {
+        let small = rng.range(20, 28);
+        let at = rng.range(1, primes - 2);
+        let mut others = q.clone();
+        others.remove(at);
+        q[at] = gen::find_prime(rng, factor, small, &others)?;
+        tbits = rng.range(small.saturating_sub(2), small + 3).min(30);
+    }
     let t = if scheme == CKKS { 0 } else { gen::find_prime(rng, factor, tbits, &q)? };
     Some(ParamSpec { scheme, n, q, t, expand_chain: true, special_enc: false })
 }
